@@ -88,7 +88,16 @@ UNITS["C17"] = [
          trusted=["rusqlite Statement::readonly == sqlite3_stmt_readonly; SQLITE_OPEN_READ_ONLY pool connections"]),
 ]
 
+UNITS["C16"] = [
+    dict(kind="verus", name="c16_cluster", template="specs/c16_cluster.vrs",
+         under_contract=["frag_uni_dispatch", "frag_serve_sync_prologue", "frag_sync_candidate", "frag_broadcast_target"], vacuity=["frag_uni_dispatch", "frag_serve_sync_prologue", "frag_sync_candidate", "frag_broadcast_target"],
+         assumptions=["fragments wrapped as functions (continue -> return Exit::Continue; return Ok(0) -> Returned(0)); `.instrument(..).await` dropped from the one awaited call, whose effect is a ghost log of written messages",
+                      "speedy #[default_on_eof] on cluster_id decodes an absent field to ClusterId(0) (assumed)",
+                      "the uni handler captures cluster_id once per connection (runtime switch of cluster id not covered)"]),
+]
+
 NOTES = {
+    "C16": "the cluster-id decision sites as fragments: uni dispatch, serve_sync prologue, sync-candidate filter, broadcast-target filter",
     "C17": "token decision fragment (Verus), route/middleware ordering and read-only-guard dominance (structural obligations on the real text)",
     "C04": "fragments of SyncStateV1::compute_available_needs: own-actor/zero-head guards, Full needs (sound + complete w.r.t. peer-held set), tail request above our head",
     "C18": "inductive transition contracts of Members (history length unbounded, state size bounded => Kani harnesses are labelled bounded)",
